@@ -33,7 +33,7 @@ structure FCok (c : FC) (F : Fmt) : Prop where
   emask : c.exponentMask = F.infBits
   infb : c.infinityBits = F.infBits
   bits : c.bits = F.mbits + F.ebits + 1
-  maxd : c.maxDigits ≥ 2
+  maxd : c.maxDigits ≥ 22
   /-- a midpoint between adjacent floats has at most `MAX_DIGITS - 1` significant decimal digits -/
   digits_ok : 2 ^ (F.mbits + 2) * 5 ^ (F.qexp + 1) < 10 ^ (c.maxDigits - 1)
   /-- integers below `2^80` are far inside the finite range -/
